@@ -75,8 +75,9 @@ def exit_paths(ctx, fabric, regime, perm, N, generic, loc):
         if outcome_[0] != "raise" and gl not in locs:
             locs.append(gl)
     for gl in locs:
-        for occ in (0, "*"):
-            tag = f"{fabric}:{regime}:order={perm}:N={N}:early exit at {gl.split('/')[-1]} taken {'by the first grain' if occ == 0 else 'by every grain'}"
+        for occ in (0, N - 1, "*") if N > 1 else (0,):
+            who = {0: "by the first grain only", N - 1: "by the last grain only", "*": "by every grain"}[occ]
+            tag = f"{fabric}:{regime}:order={perm}:N={N}:early exit at {gl.split('/')[-1]} taken {who}"
             try:
                 I, inp, out = drex.extract(ctx, fabric, regime, perm, N, setup=lambda I_: setattr(I_, "force_exit", (gl, occ)))
             except RaiseSig as r:
@@ -257,8 +258,13 @@ def guards(ctx, fabric, regime, perm, I, loc, inp=None):
     for g, out, gloc, fn in I.guards:
         if g.kind == "all" and out[0] == "return":
             v = out[1]
+            if not (isinstance(v, tuple) and len(v) == 2 and isinstance(v[0], np.ndarray) and v[0].shape == (3, 3)):
+                # a helper with another contract (rate written into a buffer of the caller ...): what the exit leaves behind is decided on
+                # the result of `derivatives` by C03.exit-paths, not on the value returned here
+                ctx.observe(f"{tagp}: the early exit at {gloc} does not return (rate, energy); judged by C03.exit-paths on the result of derivatives")
+                continue
             okz, why = False, f"no-slip branch returns {v!r}"[:200]
-            if isinstance(v, tuple) and len(v) == 2 and isinstance(v[0], np.ndarray) and v[0].shape == (3, 3):
+            if True:
                 en_ok = isinstance(v[1], E) and (v[1].is_const())
                 if all(lift(c).is_zero() for c in v[0].flat):
                     okz, why = en_ok, "zero rotation, constant energy" if en_ok else "energy of a grain without slip is not a constant"
